@@ -188,6 +188,10 @@ func genRTCPIn(t *rapid.T) (raw []byte, class string) { //nolint:cyclop
 func genCase(t *rapid.T) (*Case, []string) {
 	c := &Case{Member: rapid.SampledFrom(members).Draw(t, "member"), History: rapid.IntRange(0, 8).Draw(t, "history"), Dirty: byte(rapid.SampledFrom([]int{0, 0xA5, 0xFF}).Draw(t, "dirty"))}
 	var classes []string
+	if c.Member == "chain" && rapid.Bool().Draw(t, "shuffled") {
+		c.Order = rapid.Uint64Range(1, 1<<62).Draw(t, "order")
+		classes = append(classes, "shuffled-chain")
+	}
 	if c.Member == "jitterbuffer" && rapid.Bool().Draw(t, "longHistory") {
 		c.History = rapid.IntRange(50, 70).Draw(t, "jbHistory") // enough for the buffer to start emitting
 	}
